@@ -1,7 +1,7 @@
 //! Lean flavour (`--no-default-features`): blake3 is built without rayon, mmap, zeroize and serde, so that code which
-//! exists only when one of those features is OFF is compiled into a harness build at all. The operations that need
-//! the missing API are skipped before they reach the calls below (see `needs_full`); these stand-ins only keep the
-//! interpreter compiling.
+//! exists only when one of those features is OFF is compiled into a harness build at all. Parallel and mapped
+//! adapters fall back to update / update_reader on the same bytes; operations that make no sense without the missing
+//! API (zeroize, special files, the b3sum parser) are skipped (see `needs_full`).
 #![allow(dead_code)]
 
 pub const FULL: bool = cfg!(feature = "full");
@@ -15,14 +15,18 @@ pub trait LeanHasher {
 
 #[cfg(not(feature = "full"))]
 impl LeanHasher for blake3::Hasher {
-    fn update_rayon(&mut self, _input: &[u8]) -> &mut Self {
-        unreachable!("lean flavour: skipped before the call")
+    // the lean build has no parallel or mapped adapters: the same bytes go through update / update_reader, so that
+    // plans keep their meaning (a C09 shard is still fed completely)
+    fn update_rayon(&mut self, input: &[u8]) -> &mut Self {
+        self.update(input)
     }
-    fn update_mmap(&mut self, _path: impl AsRef<std::path::Path>) -> std::io::Result<&mut Self> {
-        unreachable!("lean flavour: skipped before the call")
+    fn update_mmap(&mut self, path: impl AsRef<std::path::Path>) -> std::io::Result<&mut Self> {
+        let f = std::fs::File::open(path)?;
+        self.update_reader(f)
     }
-    fn update_mmap_rayon(&mut self, _path: impl AsRef<std::path::Path>) -> std::io::Result<&mut Self> {
-        unreachable!("lean flavour: skipped before the call")
+    fn update_mmap_rayon(&mut self, path: impl AsRef<std::path::Path>) -> std::io::Result<&mut Self> {
+        let f = std::fs::File::open(path)?;
+        self.update_reader(f)
     }
 }
 
@@ -51,10 +55,9 @@ impl LeanZeroize for blake3::Hash {
 
 /// does this operation need API that the lean flavour does not have?
 pub fn needs_full(op: &crate::plan::Op) -> bool {
-    use crate::plan::{AbsorbVia, Op};
+    use crate::plan::Op;
     match op {
-        Op::Absorb { via, .. } => matches!(via, AbsorbVia::Rayon { .. } | AbsorbVia::Mmap | AbsorbVia::MmapRayon | AbsorbVia::SharedFile { how: 0 | 1 }),
-        Op::ParallelRayon { .. } | Op::Zeroize { .. } | Op::FileKinds { .. } | Op::SysFault { .. } => true,
+        Op::ParallelRayon { .. } | Op::Zeroize { .. } | Op::FileKinds { .. } | Op::SysFault { .. } | Op::HugeFile { .. } | Op::CliSpecial { .. } => true,
         Op::PathRoundTrip { .. } | Op::ParseMutations { .. } | Op::ParseLine { .. } => true,
         _ => false,
     }
